@@ -58,7 +58,7 @@ def do_run(names):
 
 if __name__ == '__main__':
     if sys.argv[1] == 'import':
-        do_import(sys.argv[2], sys.argv[3])
+        do_import(sys.argv[2], sys.argv[3], sys.argv[4] if len(sys.argv) > 4 else None)
     elif sys.argv[1] == 'run':
         names = sys.argv[2:] or sorted(n for n in os.listdir(SEEDED) if os.path.isdir(os.path.join(SEEDED, n)))
         do_run(names)
